@@ -129,10 +129,13 @@ def gen_case(rng: random.Random, op: str, constraint: Any = "random") -> OpCase:
             if op == "layer_norm" and rng.random() < 0.7:
                 shapes["bias"] = norm_shape
                 diff.append("bias")
+        elif op == "layer_norm" and rng.random() < 0.5:
+            shapes["bias"] = norm_shape            # bias without gain: F.layer_norm(x, shape, None, b)
+            diff.append("bias")
         return OpCase(op, {"normalized_shape": norm_shape, "eps": rng.choice([1e-5, 1e-5, 1e-3, 1e-8])}, shapes, diff)
     if op == "add":
         shape = tuple(_distinct_primes(rng, rng.randint(1, 4)))
-        mode = rng.choice(["same", "same", "size1", "missing", "missing+size1", "scalar_tensor", "number"])
+        mode = rng.choice(["same", "same", "size1", "missing", "missing+size1", "leading1", "scalar_tensor", "number"])
         other: Any
         if mode == "same":
             other = shape
@@ -144,6 +147,8 @@ def gen_case(rng: random.Random, op: str, constraint: Any = "random") -> OpCase:
             tail = shape[rng.randint(1, len(shape)):] if len(shape) > 1 else shape
             other = tuple(1 if (i % 2 == 0 or rng.random() < 0.5) else d for i, d in enumerate(tail)) if len(tail) > 1 \
                 else ((1,) if len(shape) > 1 else shape)
+        elif mode == "leading1":
+            other = (1,) * rng.randint(1, 2) + shape      # same element count, higher rank
         elif mode == "scalar_tensor":
             other = rng.choice([(), (1,), (1,) * len(shape)])
         else:
